@@ -4,6 +4,7 @@ import (
 	"fmt"
 	"math"
 	"os"
+	"regexp/syntax"
 	"runtime"
 	"sort"
 	"strconv"
@@ -43,22 +44,22 @@ type knownCond struct {
 
 // JobConfig bounds one exploration.
 type JobConfig struct {
-	Name       string
-	MaxSteps   int64 // per path (unwinding guard)
-	MaxPaths   int64
-	Deadline   time.Time
-	Workers    int
-	TimeoutMs  int
-	StopFirst  bool
-	Samples    int
-	SampleEvery int // additionally sample every n-th path of a worker (0 = off)
-	Concrete   []string          // concrete replay vector (values in call order); nil = symbolic
-	KnownIDs   map[string]bool   // listed known-finding ids (others attribute nothing)
-	Params     map[string]int64  // harness parameters readable via vParam
-	SolverBin  string
-	SolverArgs []string
-	SMTLog     string
-	Only       []string // assertion-id prefixes that belong to this check (empty = all)
+	Name        string
+	MaxSteps    int64 // per path (unwinding guard)
+	MaxPaths    int64
+	Deadline    time.Time
+	Workers     int
+	TimeoutMs   int
+	StopFirst   bool
+	Samples     int
+	SampleEvery int              // additionally sample every n-th path of a worker (0 = off)
+	Concrete    []string         // concrete replay vector (values in call order); nil = symbolic
+	KnownIDs    map[string]bool  // listed known-finding ids (others attribute nothing)
+	Params      map[string]int64 // harness parameters readable via vParam
+	SolverBin   string
+	SolverArgs  []string
+	SMTLog      string
+	Only        []string // assertion-id prefixes that belong to this check (empty = all)
 }
 
 // Shared is the state shared by the workers of one job.
@@ -78,29 +79,29 @@ type Shared struct {
 
 // Stats are merged over workers.
 type Stats struct {
-	Paths       int64
-	Aborted     int64
-	Steps       int64
-	Decisions   int64
-	Asserts     map[string]int64
-	AssertsSym  map[string]int64
-	Viol        []Violation
-	KnownHit    map[string]*Violation
-	Incon       []string
-	Funcs       map[string]int64
-	FuncInstrs  map[string]int64
-	Queries     int
-	Sat         int
-	Unsat       int
-	Unknown     int
-	SolverErrs  int
-	SolverTime  time.Duration
-	MaxQuery    time.Duration
-	Samples     []map[string]interface{}
-	Observed    [][]string
-	CacheHits   int64
-	Stubs       map[string]int64
-	MaxPathStep int64
+	Paths         int64
+	Aborted       int64
+	Steps         int64
+	Decisions     int64
+	Asserts       map[string]int64
+	AssertsSym    map[string]int64
+	Viol          []Violation
+	KnownHit      map[string]*Violation
+	Incon         []string
+	Funcs         map[string]int64
+	FuncInstrs    map[string]int64
+	Queries       int
+	Sat           int
+	Unsat         int
+	Unknown       int
+	SolverErrs    int
+	SolverTime    time.Duration
+	MaxQuery      time.Duration
+	Samples       []map[string]interface{}
+	Observed      [][]string
+	CacheHits     int64
+	Stubs         map[string]int64
+	MaxPathStep   int64
 	UFRefinements int64
 	RaceQueries   int64
 }
@@ -167,55 +168,58 @@ type Exec struct {
 	trace  []int64
 	local  [][]int64
 
-	nsym   int
-	inputs []InputRec
-	known  []knownCond
-	decided map[string]bool // branch-condition cache for the current path
+	nsym     int
+	inputs   []InputRec
+	known    []knownCond
+	decided  map[string]bool // branch-condition cache for the current path
 	observed []string
-	concPos int
+	concPos  int
 
 	pathSteps int64
 
-	globals map[*ssa.Global]*value
-	inited  map[*ssa.Package]bool
-	expvar  map[string]*expvarObj
+	globals     map[*ssa.Global]*value
+	inited      map[*ssa.Package]bool
+	expvar      map[string]*expvarObj
 	expvarOrder []string
 
-	gs         []*G
-	cur        *G
-	locks      map[*value]*lockState
-	pending    interface{}
-	recorded   []recordedCall
-	recovering []*frame
-	nchan      int
-	nopaque    int
-	inQuiesce  bool
-	clockLast  *Int
-	ufDecl     map[string]bool
-	ntpdef     int
-	sliceData  map[*value][]value
+	gs            []*G
+	cur           *G
+	locks         map[*value]*lockState
+	pending       interface{}
+	recorded      []recordedCall
+	recovering    []*frame
+	nchan         int
+	nopaque       int
+	inQuiesce     bool
+	lastFn        *ssa.Function // the function entered last (diagnostics)
+	reNative      map[*value]*syntax.Regexp
+	net           netModel
+	clockLast     *Int
+	ufDecl        map[string]bool
+	ntpdef        int
+	sliceData     map[*value][]value
 	inExportPoint bool
-	quiet      bool // suppress inconclusive notes (sampling)
-	tpReg      []tpRegEntry
-	tpActive   map[string]bool
-	race       raceState
-	expvarAnon map[*value]*expvarObj
-	fs         fsModel
-	compileCalls int
-	cachedModel []InputRec
-	matchTable map[*value]value
-	matchOn    map[*value][]matchEntry
-	natives    map[string]value
-	faultSeq   int
-	inInit     int
-	clockNext  *Int
-	ctxChildren map[*ctxObj][]*ctxObj
-	panicsLogged []string
-	reqCtx      map[*value]value
-	clockFirst  *Int
-	clockFrozen bool
-	ufApps      []ufApp
-	pendingFacts []string
+	quiet         bool // suppress inconclusive notes (sampling)
+	tpReg         []tpRegEntry
+	tpActive      map[string]bool
+	race          raceState
+	expvarAnon    map[*value]*expvarObj
+	fs            fsModel
+	compileCalls  int
+	cachedModel   []InputRec
+	matchTable    map[*value]value
+	matchOn       map[*value][]matchEntry
+	natives       map[string]value
+	faultSeq      int
+	inInit        int
+	clockNext     *Int
+	ctxChildren   map[*ctxObj][]*ctxObj
+	panicsLogged  []string
+	reqCtx        map[*value]value
+	clockFirst    *Int
+	clockFrozen   bool
+	ufApps        []ufApp
+	pendingFacts  []string
 }
 
 type recordedCall struct {
@@ -376,7 +380,10 @@ func (e *Exec) choose(n int) int {
 }
 
 // concretize enumerates the feasible values of an integer term and forks over them.
-func (e *Exec) concretize(x Int) Int {
+func (e *Exec) concretize(x Int) Int { return e.concretizeUpTo(x, 64) }
+
+// concretizeUpTo forks over every feasible value of x (at most limit of them).
+func (e *Exec) concretizeUpTo(x Int, limit int) Int {
 	if x.isConc() {
 		return x
 	}
@@ -400,9 +407,13 @@ func (e *Exec) concretize(x Int) Int {
 		v := parseBV(e.sol.GetValue(t.S))
 		vals = append(vals, v)
 		e.sol.Send(fmt.Sprintf("(assert (not (= %s %s)))", t.S, bvLit(v, x.W)))
-		if len(vals) > 64 {
+		if len(vals) > limit {
 			e.sol.Send("(pop 1)")
-			panic(inconclusive{"concretize: more than 64 feasible values for " + t.S})
+			where := ""
+			if e.lastFn != nil {
+				where = " (last function entered: " + e.lastFn.String() + ")"
+			}
+			panic(inconclusive{fmt.Sprintf("concretize: more than %d feasible values for %s%s", limit, t.S, where)})
 		}
 	}
 	e.sol.Send("(pop 1)")
@@ -740,6 +751,8 @@ func (e *Exec) runPath(prefix []int64) {
 	e.race = raceState{names: map[*value]string{}}
 	e.expvarAnon = nil
 	e.fs = fsModel{}
+	e.net = netModel{}
+	e.reNative = nil
 	e.compileCalls = 0
 	e.matchTable = map[*value]value{}
 	e.matchOn = map[*value][]matchEntry{}
